@@ -23,10 +23,12 @@ EXTENDS InlineCache, Json
 
 CONSTANTS H,        \* length of the free suffix
           CatSel,   \* set of catalogue entry numbers to run
-          Wide      \* TRUE: thorough alphabets
+          WideCats  \* catalogue entries that use the thorough alphabets
 
 VARIABLES cat, pc, nfree,
           prev     \* the reference graph before the last step (history variable for EsInv)
+
+Wide == cat \in WideCats
 
 mcvars == <<objs, uq, glob, cst, ust, log, cat, pc, nfree, prev>>
 
